@@ -205,6 +205,8 @@ type prog struct {
 	wrapEnd   int
 	counter   int
 	viaScript bool // anonymous sources go through Compile("", src) and a Script too
+	depthLimit int // Otto.SetStackDepthLimit; 0 = none (then nothing in the program recurses)
+	restFrames int
 	history   int // 0: fresh runtime; otherwise the trace limit of the warm-up runs
 }
 
@@ -213,6 +215,9 @@ var U; var NUL = null; var O = {k: 1}; var NUM = 1.5; var ARR = []; var CYC = {}
 var GS = { get x() { return zz }, set y(v) { zz }, get z() { return ok() }, set w(v) { ok() } };
 function evThrow() { try { eval("zz") } catch (e) { return 1 } } function evFin() { try { eval("null.x") } finally { return 1 } }
 function evCatch() { try { eval("U()") } catch (e) {} return ok() } function evLeak() { eval("\n zz") } function w0() { zz }
+function rec(n) { return rec(n + 1) } function rc(n) { [1].forEach(function () { rc(n + 1) }) } function re(n) { eval("re(n + 1)") }
+var RG = { get x() { return RG.x } }; function ra(n) { return ok(ra(n + 1), 2) } function rf(n) { try { zz } finally { rf(n + 1) } }
+function RC(n) { this.c = new RC(n + 1) } function rs(n) { [2, 1].sort(function (a, b) { return rs(n + 1) }) }
 var EV = eval; var BAD = {toString: 1, valueOf: 1}; var FROZEN = Object.freeze({a: 1}); var __r;
 var __facts = (function () {
   // the built-ins as they were before any script could rebind them
@@ -296,7 +301,7 @@ func ev(k string, at pos) string { return fmt.Sprintf("EvCall %s %d %d %d", k, a
 // a completed statement that leaves something behind in the frame
 func (p *prog) prior(w *fileBuf, lv *lvl) {
 	r := p.r
-	n := 16
+	n := 18
 	for {
 		switch r.Intn(n) {
 		case 0:
@@ -420,6 +425,48 @@ func (p *prog) prior(w *fileBuf, lv *lvl) {
 				w.w(" } } catch (e1) { ")
 				lv.events = append(lv.events, ev("KDot", w.here()))
 				w.w("H.ok() }")
+			}
+		case 16, 17: // a stack overflow raised and caught in this activation (only under a depth limit)
+			if p.depthLimit == 0 {
+				continue
+			}
+			switch r.Intn(10) {
+			case 0, 1:
+				w.w("try { ")
+				lv.events = append(lv.events, ev("KIdent", w.here()))
+				w.w("rec(0) } catch (e1) {}")
+			case 2:
+				w.w("try { ")
+				lv.events = append(lv.events, ev("KIdent", w.here()))
+				w.w(Pick(r, []string{"rc(0)", "rs(0)", "re(0)", "ra(0)", "rf(0)"}) + " } catch (e1) {}")
+			case 3:
+				w.w("try { RG.x } catch (e1) {}")
+			case 4:
+				w.w("try { new ")
+				lv.events = append(lv.events, ev("KIdent", w.here()))
+				w.w("RC(0) } catch (e1) {}")
+			case 5: // during argument evaluation: the outer call is never made
+				w.w("try { ok(1, ")
+				lv.events = append(lv.events, ev("KIdent", w.here()))
+				w.w("rec(0)) } catch (e1) {}")
+			case 6: // in a finally block
+				w.w("try { try { U.x } finally { try { ")
+				lv.events = append(lv.events, ev("KIdent", w.here()))
+				w.w("rec(0) } catch (e1) {} } } catch (e0) {}")
+			case 7:
+				w.w("try { try { ")
+				lv.events = append(lv.events, ev("KIdent", w.here()))
+				w.w("rec(0) } finally { ")
+				lv.events = append(lv.events, ev("KIdent", w.here()))
+				w.w("ok() } } catch (e1) {}")
+			case 8:
+				w.w("try { ")
+				lv.events = append(lv.events, ev("KDot", w.here()))
+				w.w("rec.call(null, 0) } catch (e1) {}")
+			default:
+				w.w("try { ")
+				lv.events = append(lv.events, ev("KDot", w.here()))
+				w.w("[1].forEach(function () { rec(0) }) } catch (e1) {}")
 			}
 		case 15: // other constructs that swap frame state, left by a throw caught here or further in
 			switch r.Intn(8) {
@@ -1200,6 +1247,7 @@ type runResult struct {
 	str     string
 	isOtto  bool
 	panicked interface{}
+	restBad  bool // frames left on the runtime at rest (Context().Stacktrace longer than on a fresh runtime)
 	facts   string
 }
 
@@ -1243,6 +1291,7 @@ func resultOf(o Outcome) runResult {
 
 func (p *prog) run(wrapped bool, viaCopy bool) runResult {
 	facts := ""
+	rest := 1
 	o := Guard(func() (otto.Value, error) {
 		vm := otto.New()
 		if p.history > 0 {
@@ -1263,6 +1312,10 @@ func (p *prog) run(wrapped bool, viaCopy bool) runResult {
 			vm = vm.Copy()
 		}
 		setHost(vm)
+		vm.SetStackDepthLimit(p.depthLimit)
+		if p.depthLimit > 0 && p.history > 0 {
+			overflowHistory(vm, p.r)
+		}
 		catchText := ""
 		if wrapped {
 			catchText = "__r = __facts(e)"
@@ -1273,11 +1326,23 @@ func (p *prog) run(wrapped bool, viaCopy bool) runResult {
 				facts = fv.String()
 			}
 		}
+		rest = len(vm.Context().Stacktrace)
 		return v, err
 	})
 	res := resultOf(o)
 	res.facts = facts
+	res.restBad = o.Panic == nil && rest != 1
 	return res
+}
+
+// earlier Runs on a runtime with a depth limit that hit it: caught in the script, or ending the Run
+func overflowHistory(vm *otto.Otto, r *rand.Rand) {
+	srcs := []string{"try { rec(0) } catch (e) {}", "rec(0)", "try { rc(0) } catch (e) {}", "rc(0)", "re(0)", "try { RG.x } catch (e) {}",
+		"RG.x", "ra(0)", "try { rf(0) } catch (e) {}", "new RC(0)", "rs(0)", "(function probe() { try { rec(0) } catch (e) {} })()",
+		"function p2() { try { rec(0) } finally { return 1 } } p2()", "eval(\"rec(0)\")", "hostRun(\"rec(0)\")"}
+	for k := 1 + r.Intn(3); k > 0; k-- {
+		_, _ = vm.Run(Pick(r, srcs))
+	}
 }
 
 // hand-built witnesses of the listed findings (deterministic, run first on every run)
@@ -1414,6 +1479,9 @@ func randomProgram(r *rand.Rand) (*prog, string) {
 		p.limit = scopes + r.Intn(5) - 2
 	}
 	p.kind = p.pickKind()
+	if r.Intn(3) == 0 {
+		p.depthLimit = 60 + r.Intn(60)
+	}
 	p.viaScript = r.Intn(3) == 0
 	p.plan(scopes)
 	for i := len(p.steps) - 1; i >= 0; i-- {
@@ -1479,21 +1547,35 @@ func genSession(env *Env) {
 	for i, p := range progs {
 		p := p
 		vm1.SetStackTraceLimit(p.limit)
+		vm1.SetStackDepthLimit(p.depthLimit)
+		if p.depthLimit > 0 && r.Intn(2) == 0 {
+			_ = Guard(func() (otto.Value, error) { overflowHistory(vm1, r); return otto.Value{}, nil })
+		}
 		o := Guard(func() (otto.Value, error) { return p.exec(vm1, "") })
 		kept[i], panics[i] = o.Err, o.Panic
 	}
+	rest1 := 1
+	_ = Guard(func() (otto.Value, error) { rest1 = len(vm1.Context().Stacktrace); return otto.Value{}, nil })
 	vm2 := otto.New()
 	_ = RunJS(vm2, prelude+"\nvar __keep = [];")
 	setHost(vm2)
 	for i, p := range progs {
 		p := p
 		vm2.SetStackTraceLimit(p.limit)
+		vm2.SetStackDepthLimit(p.depthLimit)
+		if p.depthLimit > 0 && r.Intn(2) == 0 {
+			_ = Guard(func() (otto.Value, error) { overflowHistory(vm2, r); return otto.Value{}, nil })
+		}
 		_ = Guard(func() (otto.Value, error) { return p.exec(vm2, fmt.Sprintf("__keep[%d] = e", i)) })
 	}
+	rest2 := 1
+	_ = Guard(func() (otto.Value, error) { rest2 = len(vm2.Context().Stacktrace); return otto.Value{}, nil })
 	// only now look at them
 	for i, p := range progs {
 		r1 := resultOf(Outcome{Err: kept[i], Panic: panics[i]})
+		r1.restBad = rest1 != 1
 		var r2 runResult
+		r2.restBad = rest2 != 1
 		if o := RunJS(vm2, fmt.Sprintf("__facts(__keep[%d])", i)); o.Err == nil && o.Panic == nil && o.Val.IsString() {
 			r2.facts = o.Val.String()
 		}
@@ -1543,12 +1625,12 @@ func (p *prog) emit(env *Env, qname, how string, r1, r2 runResult) {
 		levels[i] = fmt.Sprintf("(%s, %s)", l.kind, Clist(l.events))
 	}
 	hdr, frames, ok := parseFrames(r1.str)
-	hdrOK := ok && r1.isOtto && r1.panicked == nil && hdr == r1.errText
+	hdrOK := ok && r1.isOtto && r1.panicked == nil && hdr == r1.errText && !r1.restBad && !r2.restBad
 	var srcs []string
 	for _, f := range p.files {
 		srcs = append(srcs, fmt.Sprintf("file %d %q: %q", f.table, f.name, string(f.b)))
 	}
-	txt := fmt.Sprintf("trace limit=%d %s kind=%d %s -> Error()=%q String()=%q panic=%v", p.limit, how, p.kind,
+	txt := fmt.Sprintf("trace limit=%d depthlimit=%d restbad=%v/%v %s kind=%d %s -> Error()=%q String()=%q panic=%v", p.limit, p.depthLimit, r1.restBad, r2.restBad, how, p.kind,
 		strings.Join(srcs, " ; "), r1.errText, r1.str, r1.panicked)
 	env.Add(fmt.Sprintf("CTrace %s %s %s (%s) %s %s", Clist(files), Cz(int64(p.limit)), Clist(levels), p.raise, Cbool(hdrOK), Clist(frames)),
 		txt, "trace/"+qname, len(p.levels) >= 2)
@@ -2494,7 +2576,7 @@ func genFileSet(env *Env, pinned int) {
 
 func runC19(env *Env) {
 	env.Import = "Otto.C19.Corr"
-	env.Rule = "programs: an error-raising construct of one of 51 kinds placed by a position-tracking generator inside 0-14 nested frames (declared/anonymous/named function expressions, methods, constructors, call/apply/bind, callbacks of 11 built-ins, IIFEs, direct and indirect eval, Function()), 0-3 earlier statements per frame (calls of every callee form, completed evals, caught errors), up to two named files plus eval texts, trace limits -3..15 correlated with the depth, optionally through Otto.Copy; plus the argument-dependent raises (toString radix, toFixed/toExponential/toPrecision digits, new Array(len), length = len) over boundary arguments (range ends, fractions, residues of the legal range modulo 2^31/2^32/2^53/2^63/2^64, negatives, NaN, infinities, numeric strings, objects with valueOf/toString) in both directions; `in`/`instanceof` with operands whose conversion methods log and throw (5 left x 4 right operand kinds, both operators: outcome, class facts and the conversion log); frames entered implicitly (getter/setter of object literals and defineProperty, valueOf/toString of converting operators) in any position of the chain; interpreter-raised errors of 34 forms caught in runtimes whose global error constructors were rebound, deleted or shadowed (local var, with-object, catch variable, parameters) and whose Error.prototype.toString was replaced, judged against the built-ins saved beforehand; 50 scenarios in which both an early and a late error are possible (new, call, member call, in, instanceof, delete, subscripts, assignment, compound assignment, literals: which error wins by class and position, and the log of side effects); earlier statements of every frame include direct evals left normally and by throws caught in the same activation (also through finally), indirect eval, Function(), callbacks, getters/setters and host functions that re-enter Run/Eval/Call; sessions of 2-4 programs on one runtime (also the same texts under other file names, through Run, Compile and Script objects) whose retained errors (Go *otto.Error and caught JS error objects) are all inspected only after the last one was raised; file.Position on random texts/offsets, parser positions of an offending token, uncaught text after name/message mutations, FileSet.Position; non-trivial = distinct case with at least one call frame (traces) or a line break (positions); all text/fileset/facts cases"
+	env.Rule = "programs: an error-raising construct of one of 51 kinds placed by a position-tracking generator inside 0-14 nested frames (declared/anonymous/named function expressions, methods, constructors, call/apply/bind, callbacks of 11 built-ins, IIFEs, direct and indirect eval, Function()), 0-3 earlier statements per frame (calls of every callee form, completed evals, caught errors), up to two named files plus eval texts, trace limits -3..15 correlated with the depth, optionally through Otto.Copy; plus the argument-dependent raises (toString radix, toFixed/toExponential/toPrecision digits, new Array(len), length = len) over boundary arguments (range ends, fractions, residues of the legal range modulo 2^31/2^32/2^53/2^63/2^64, negatives, NaN, infinities, numeric strings, objects with valueOf/toString) in both directions; `in`/`instanceof` with operands whose conversion methods log and throw (5 left x 4 right operand kinds, both operators: outcome, class facts and the conversion log); frames entered implicitly (getter/setter of object literals and defineProperty, valueOf/toString of converting operators) in any position of the chain; interpreter-raised errors of 34 forms caught in runtimes whose global error constructors were rebound, deleted or shadowed (local var, with-object, catch variable, parameters) and whose Error.prototype.toString was replaced, judged against the built-ins saved beforehand; 50 scenarios in which both an early and a late error are possible (new, call, member call, in, instanceof, delete, subscripts, assignment, compound assignment, literals: which error wins by class and position, and the log of side effects); earlier statements of every frame include direct evals left normally and by throws caught in the same activation (also through finally), indirect eval, Function(), callbacks, getters/setters and host functions that re-enter Run/Eval/Call; runtimes with a stack depth limit on which overflows (plain recursion, through forEach/sort callbacks, eval, a getter, argument evaluation, a finally block, a constructor, call) were raised and caught in the same activation, in earlier statements, or ended earlier Runs, the frames left at rest counted through Context(); sessions of 2-4 programs on one runtime (also the same texts under other file names, through Run, Compile and Script objects) whose retained errors (Go *otto.Error and caught JS error objects) are all inspected only after the last one was raised; file.Position on random texts/offsets, parser positions of an offending token, uncaught text after name/message mutations, FileSet.Position; non-trivial = distinct case with at least one call frame (traces) or a line break (positions); all text/fileset/facts cases"
 	pins := []func(){}
 	for k := 1; k <= 9; k++ {
 		k := k
